@@ -148,6 +148,51 @@ def check(model: Model, run: Run) -> None:
     got_l = {b_: eval_function(folder, ln, {ln.node.args.args[-1].arg: b_}) for b_ in (0x00, 0x81, 0x10, 0x25, 0x30, 0xB1)}
     run.check(got_l == {0x00: 1, 0x81: 1, 0x10: 2, 0x25: 4, 0x30: 8, 0xB1: 8} and folder.class_attr(co.qualname, 'LEN') == 0x30, ln.qualname, 'value width for operator bytes: %s' % {hex(k): v for k, v in got_l.items()}, ln.loc(), 'decoder: width = 1 << length bits')
 
+    # a decoded value the walk keeps: _parse_operations adds an operator only when its value is a BaseValue, so every component
+    # decoder must produce one (an int out of `_number(x) & mask` is dropped without a word and the rule comes out broader)
+    BASEV = 'exabgp.protocol.resource.BaseValue'
+
+    def yields_value(e: ast.AST, depth: int = 0) -> bool:
+        if depth > 3:
+            return False
+        if isinstance(e, ast.Call):
+            if isinstance(e.func, ast.Name) and e.func.id == 'decoder' and e.args:
+                k = e.args[1] if len(e.args) > 1 else None
+                kq = [q for q in (model.callees(mod, ast.Call(func=k, args=[], keywords=[])) if False else [])]
+                if k is None:
+                    return True  # decoder(function) wraps in NumericValue
+                kd = dotted(k) or ''
+                full = mod.imports.get(kd.split('.')[0], '')
+                cands = [q for q in model.classes if q.endswith('.' + kd.rsplit('.', 1)[-1])]
+                return any(model.is_subclass(q, BASEV) for q in cands)
+            for q in model.callees(mod, e):
+                if q in model.classes or q.rsplit('.', 1)[0] in model.classes and q.endswith('.__init__'):
+                    cq = q if q in model.classes else q.rsplit('.', 1)[0]
+                    return model.is_subclass(cq, BASEV)
+                f_ = model.funcs.get(q)
+                if f_ is not None:
+                    rets_ = [r for r in walk_no_nested(f_.node) if isinstance(r, ast.Return) and r.value is not None]
+                    return bool(rets_) and all(yields_value(r.value, depth + 1) for r in rets_)
+            return False
+        if isinstance(e, ast.Name):
+            f_ = mod.functions.get(e.id)
+            if f_ is not None:
+                rets_ = [r for r in walk_no_nested(f_.node) if isinstance(r, ast.Return) and r.value is not None]
+                return bool(rets_) and all(yields_value(r.value, depth + 1) for r in rets_)
+            kq = [q for q in model.classes if q.endswith('.' + e.id)]
+            return any(model.is_subclass(q, BASEV) for q in kq)
+        return False
+
+    n_dec = 0
+    for ci in mod.classes.values():
+        dv = ci.assigns.get('decoder')
+        if dv is None or not isinstance(folder.class_attr(ci.qualname, 'ID'), int):
+            continue
+        n_dec += 1
+        run.check(yields_value(dv), ci.qualname, 'decoder %s yields a BaseValue' % norm(dv)[:50], ci.loc(), 'Flow._parse_operations keeps an operator only when its decoded value is a BaseValue: a decoder that returns a plain int (the result of `&` on a NumericValue) makes every operator of the component vanish, and `destination 10.0.0.0/8 dscp =46` is delivered as `destination 10.0.0.0/8`')
+    if n_dec < 10:
+        run.cannot('only %d component decoders found' % n_dec)
+
     # ------------------------------------------------------------------ R3 component registry
     run.rule('C16.R3', 'component registry: types 1-13 with the RFC 8955 / 8956 names and address families', floor=8)
     found: dict[int, list[tuple[str, set[str], str]]] = {}
